@@ -279,7 +279,13 @@ def check_strategy(spec, res):
 
 # ----------------------------------------------------------------------------- (D) real DE runs
 def pen_fn(x):
-    return 3.0 * abs(float(sum(x)) - 1.0)
+    # plain left-to-right addition: python >= 3.12's builtin sum() is compensated for exact floats but not for the numpy
+    # scalars of an ndarray, so sum(list) and sum(array) of the same numbers can differ by one ulp (the library hands the
+    # penalty an array, the oracle below a tuple)
+    t = 0.0
+    for v in x:
+        t += float(v)
+    return 3.0 * abs(t - 1.0)
 
 
 def gen_de_specs(seed, n):
